@@ -1,7 +1,7 @@
-(** Property C18 at full strength ([fins_doc]: any foreign element, any local name, any subtree, any
-    position outside prototypes) is false of the extraction model.  Witnesses, by computation.
-    The float parsers are arbitrary (no witness contains a float).  The XML text of every witness
-    is in corpus/XE/ (w_*.xml) and is replayed on the real reader by tools/props/xe.py. *)
+(** The witnesses that refuted property C18 before the three repairs of the crate (same local
+    name, first child of a leaf, capture through descendants()), now positive examples: on each of
+    them the extraction result is what it is without the inserted content.  The XML text of every
+    witness is in corpus/XE/ (w_*.xml) and is replayed on the real reader by tools/props/xe.py. *)
 From Coq Require Import Strings.String.
 From Coq Require Import List Bool NArith ZArith.
 From E57 Require Import Base.Prelude Model.Meta Model.MetaFile Model.XmlTree Model.XmlExtract
@@ -34,40 +34,33 @@ Definition ver_node := sint (B"versionMajor") (B"1").
 Definition data3d_empty := std (B"data3D") [tattr (B"Vector")] [].
 
 (** * Tactics that build derivations of [fins_doc] *)
-Ltac ae_tac := repeat first [apply ae_nil | apply ae_keep].
+Ltac ae_tac := repeat first [apply ae_nil | apply ae_keep | apply ae_ins; [reflexivity|]].
 Ltac flag_tac :=
   match goal with
-  | |- ins_list _ _ ?b _ _ => let v := eval vm_compute in b in change b with v
+  | |- ins_list _ ?b _ _ => let v := eval vm_compute in b in change b with v
   end.
 Ltac node_tac :=
   first [ apply ig_text | apply ig_comment | apply ig_pi
-        | apply ig_elem; [ae_tac | flag_tac; list_tac | exact I] ]
+        | apply ig_elem; [ae_tac | flag_tac; list_tac] ]
 with list_tac :=
   first [ apply il_nil
         | apply il_keep; [solve [node_tac] | list_tac]
-        | apply il_ins; [reflexivity | reflexivity | list_tac] ].
-Ltac doc_tac := unfold fins_doc, ins_doc_gen; cbn [xd_children]; repeat (constructor; [solve [node_tac]|]); constructor.
+        | apply il_ins; [reflexivity | reflexivity | first [left; reflexivity | right; reflexivity] | list_tac] ].
+Ltac doc_tac := unfold fins_doc, ins_doc_gen; cbn [xd_children]; list_tac.
 
 (** * 1. a foreign element with the local name [guid] in front of the real [guid] *)
 Definition d_base : xdoc := root_of [fmt_node; guid_node; ver_node].
 Definition d_same_name : xdoc :=
   root_of [fmt_node; ext (B"guid") [tattr (B"String")] [XText (B"fake")]; guid_node; ver_node].
 
-Lemma same_local_name_witness :
+Example same_local_name_witness :
   fins_doc d_base d_same_name /\
-  forall pf64 pf32 fdiv, exists m m',
-    extract_all pf64 pf32 fdiv d_base = Ok m /\ extract_all pf64 pf32 fdiv d_same_name = Ok m' /\
-    rt_guid (fm_root m) = B"real" /\ rt_guid (fm_root m') = B"fake".
+  forall pf64 pf32 fdiv, exists m,
+    extract_all pf64 pf32 fdiv d_base = Ok m /\ extract_all pf64 pf32 fdiv d_same_name = Ok m /\
+    rt_guid (fm_root m) = B"real".
 Proof.
-  split; [doc_tac|]. intros pf64 pf32 fdiv. eexists. eexists.
-  split; [vm_compute; reflexivity|]. split; [vm_compute; reflexivity|]. split; reflexivity.
-Qed.
-
-Theorem C18_refuted_same_local_name_proof :
-  exists d d', fins_doc d d' /\ forall pf64 pf32 fdiv, extract_all pf64 pf32 fdiv d' <> extract_all pf64 pf32 fdiv d.
-Proof.
-  exists d_base, d_same_name. split; [apply same_local_name_witness|].
-  intros pf64 pf32 fdiv. vm_compute. discriminate.
+  split; [doc_tac|]. intros pf64 pf32 fdiv. eexists.
+  split; [vm_compute; reflexivity|]. split; [vm_compute; reflexivity|reflexivity].
 Qed.
 
 (** * 2. a foreign element (or a comment) as first child of a leaf: its text reads as absent *)
@@ -85,31 +78,23 @@ Definition d_bad_number_hidden : xdoc :=
   root_of [fmt_node; guid_node;
            std (B"versionMajor") [tattr (B"Integer")] [ext (B"note") [] []; XText (B"x")]].
 
-Lemma before_text_witness :
-  fins_doc d_base d_before_text /\
-  forall pf64 pf32 fdiv, exists m m' m'',
-    extract_all pf64 pf32 fdiv d_base = Ok m /\ extract_all pf64 pf32 fdiv d_before_text = Ok m' /\
-    extract_all pf64 pf32 fdiv d_comment_before_text = Ok m'' /\
-    rt_guid (fm_root m) = B"real" /\ rt_guid (fm_root m') = [] /\ rt_guid (fm_root m'') = [].
+Example before_text_witness :
+  fins_doc d_base d_before_text /\ fins_doc d_base d_comment_before_text /\
+  forall pf64 pf32 fdiv, exists m,
+    extract_all pf64 pf32 fdiv d_base = Ok m /\ extract_all pf64 pf32 fdiv d_before_text = Ok m /\
+    extract_all pf64 pf32 fdiv d_comment_before_text = Ok m /\ rt_guid (fm_root m) = B"real".
 Proof.
-  split; [doc_tac|]. intros pf64 pf32 fdiv. eexists. eexists. eexists.
-  split; [vm_compute; reflexivity|]. split; [vm_compute; reflexivity|]. split; [vm_compute; reflexivity|].
-  repeat split; reflexivity.
+  split; [doc_tac|]. split; [doc_tac|]. intros pf64 pf32 fdiv. eexists.
+  split; [vm_compute; reflexivity|]. split; [vm_compute; reflexivity|]. split; [vm_compute; reflexivity|reflexivity].
 Qed.
 
-Lemma before_text_number_witness :
+(** the malformed number stays malformed: the text behind the foreign element is read, the file is rejected *)
+Example before_text_number_witness :
   fins_doc d_bad_number d_bad_number_hidden /\
   forall pf64 pf32 fdiv,
     extract_all pf64 pf32 fdiv d_bad_number = Err EInvalid /\
-    is_ok (extract_all pf64 pf32 fdiv d_bad_number_hidden) = true.
+    extract_all pf64 pf32 fdiv d_bad_number_hidden = Err EInvalid.
 Proof. split; [doc_tac|]. intros pf64 pf32 fdiv. split; vm_compute; reflexivity. Qed.
-
-Theorem C18_refuted_before_text_proof :
-  exists d d', fins_doc d d' /\ forall pf64 pf32 fdiv, extract_all pf64 pf32 fdiv d' <> extract_all pf64 pf32 fdiv d.
-Proof.
-  exists d_base, d_before_text. split; [apply before_text_witness|].
-  intros pf64 pf32 fdiv. vm_compute. discriminate.
-Qed.
 
 (** * 3. lookups by [descendants()] are captured by a foreign subtree earlier in document order *)
 Definition fake_pointcloud : xnode :=
@@ -122,14 +107,14 @@ Definition d_data3d_captured : xdoc :=
            ext (B"meta") [] [ext (B"data3D") [] [fake_pointcloud]];
            data3d_empty].
 
-Lemma descendant_lookup_witness :
+Example descendant_lookup_witness :
   fins_doc d_data3d d_data3d_captured /\
-  forall pf64 pf32 fdiv, exists m m',
-    extract_all pf64 pf32 fdiv d_data3d = Ok m /\ extract_all pf64 pf32 fdiv d_data3d_captured = Ok m' /\
-    length (fm_pointclouds m) = 0%nat /\ length (fm_pointclouds m') = 1%nat.
+  forall pf64 pf32 fdiv, exists m,
+    extract_all pf64 pf32 fdiv d_data3d = Ok m /\ extract_all pf64 pf32 fdiv d_data3d_captured = Ok m /\
+    length (fm_pointclouds m) = 0%nat.
 Proof.
-  split; [doc_tac|]. intros pf64 pf32 fdiv. eexists. eexists.
-  split; [vm_compute; reflexivity|]. split; [vm_compute; reflexivity|]. split; reflexivity.
+  split; [doc_tac|]. intros pf64 pf32 fdiv. eexists.
+  split; [vm_compute; reflexivity|]. split; [vm_compute; reflexivity|reflexivity].
 Qed.
 
 (** the same inside a limits structure ([extract_limit]) *)
@@ -155,36 +140,15 @@ Definition first_intensity_min (m : file_meta) : option limit_value :=
   | [] => None
   end.
 
-Lemma descendant_lookup_limits_witness :
+Example descendant_lookup_limits_witness :
   fins_doc d_limits d_limits_captured /\
-  forall pf64 pf32 fdiv, exists m m',
-    extract_all pf64 pf32 fdiv d_limits = Ok m /\ extract_all pf64 pf32 fdiv d_limits_captured = Ok m' /\
-    first_intensity_min m = Some (LInteger 1) /\ first_intensity_min m' = Some (LInteger 7).
+  forall pf64 pf32 fdiv, exists m,
+    extract_all pf64 pf32 fdiv d_limits = Ok m /\ extract_all pf64 pf32 fdiv d_limits_captured = Ok m /\
+    first_intensity_min m = Some (LInteger 1).
 Proof.
-  split; [doc_tac|]. intros pf64 pf32 fdiv. eexists. eexists.
-  split; [vm_compute; reflexivity|]. split; [vm_compute; reflexivity|]. split; reflexivity.
+  split; [doc_tac|]. intros pf64 pf32 fdiv. eexists.
+  split; [vm_compute; reflexivity|]. split; [vm_compute; reflexivity|reflexivity].
 Qed.
-
-Theorem C18_refuted_descendant_lookup_proof :
-  exists d d', fins_doc d d' /\ forall pf64 pf32 fdiv, extract_all pf64 pf32 fdiv d' <> extract_all pf64 pf32 fdiv d.
-Proof.
-  exists d_data3d, d_data3d_captured. split; [apply descendant_lookup_witness|].
-  intros pf64 pf32 fdiv. vm_compute. discriminate.
-Qed.
-
-(** the inserted elements of witnesses 1 and 3 violate exactly the name condition of the
-    restricted insertion, the one of witness 2 exactly the position condition *)
-Example same_name_not_inert :
-  inert_subtree (ext (B"guid") [tattr (B"String")] [XText (B"fake")]) = false.
-Proof. reflexivity. Qed.
-Example capture_not_inert :
-  inert_node (ext (B"meta") [] []) = true /\
-  inert_subtree (ext (B"meta") [] [ext (B"data3D") [] [fake_pointcloud]]) = false.
-Proof. split; reflexivity. Qed.
-Example note_inert_but_in_front_of_text :
-  inert_subtree (ext (B"note") [] []) = true /\
-  ~ head_text_kept [XText (B"real")] [ext (B"note") [] []; XText (B"real")].
-Proof. split; [reflexivity|]. cbn. tauto. Qed.
 
 (** * The hypotheses of the positive theorem are satisfiable on a non-trivial input
     (a document that declares the prefix [ext] at its root, so that a namespaced attribute can be
@@ -208,22 +172,7 @@ Definition d_inert : xdoc :=
             ver_reg;
             extr (B"versionMinor") [] []].
 
-Ltac ins_flag_tac := flag_tac.
-Ltac ins_ae_tac := repeat first [apply ae_nil | apply ae_keep | apply ae_ins; [reflexivity|]].
-Ltac ins_node_tac :=
-  first [ apply ig_text | apply ig_comment | apply ig_pi
-        | apply ig_elem; [ins_ae_tac | flag_tac; ins_list_tac | cbn; exact I] ]
-with ins_list_tac :=
-  first [ apply il_nil
-        | apply il_keep; [solve [ins_node_tac] | ins_list_tac]
-        | apply il_ins; [reflexivity | split; reflexivity | ins_list_tac] ].
-
 Example inert_insertion_example :
-  fins_inert_doc d_base_reg d_inert /\
+  fins_doc d_base_reg d_inert /\
   forall pf64 pf32 fdiv, extract_all pf64 pf32 fdiv d_inert = extract_all pf64 pf32 fdiv d_base_reg.
-Proof.
-  split.
-  - unfold fins_inert_doc, ins_doc_gen; cbn [xd_children].
-    repeat (constructor; [solve [ins_node_tac]|]); constructor.
-  - intros pf64 pf32 fdiv. vm_compute. reflexivity.
-Qed.
+Proof. split; [doc_tac|]. intros pf64 pf32 fdiv. vm_compute. reflexivity. Qed.
